@@ -101,7 +101,8 @@ P = {
              "unknown ids, ordered set union / difference, replace forgetting everything, RFC 6902 on further members) "
              "and the left fold with atomic failure. TLC explores the document graph, checks UniqueIds on every "
              "document, and every explored edge is replayed into the real composer with the whole projected document "
-             "compared; random patch sequences over a larger universe are validated by TLC as oracle.",
+             "compared; random patch sequences over a larger universe are validated by TLC as oracle. PatchArray.tla adds "
+             "RFC 6902 on arrays (every list of <= 2 operations on every small array), replayed the same way.",
         ref="DESIGN.md 3 C10"),
     "C11": dict(
         level="model_checking", engine="jsonpatchguard",
@@ -138,7 +139,8 @@ P = {
         text="Values are immutable in TLA+, so the property lives in the binding: on every TLC-generated edge (every "
              "failure class at every reachable state, patch lists failing at the k-th patch) the harness digests the "
              "previous state, all earlier states the caller holds, the anchored operation and the patches before and "
-             "after the real call, and demands equality and error => no state.",
+             "after the real call, and demands equality and error => no state. The corruption plans of Robust.tla for "
+             "ApplyPatches / Apply are run the same way (malformed and hostile inputs: the calls that fail or degrade).",
         ref="DESIGN.md 3 C12"),
 }
 
